@@ -88,6 +88,13 @@ class Scn:
         return delayed(label, self.path[c["src"]], self.path[c["dst"]],
                        int(c.get("shift") or 0), bool(c.get("weak")))
 
+    def due_order(self, c: dict, label: Label) -> Label:
+        """Label that matters for *ordering* (C01): async_requests adds a zero-delay dependency
+        next to whatever delay the data-flow of the same connect() call has."""
+        if c.get("async"):
+            return adapt(label, self.path[c["src"]], self.path[c["dst"]])
+        return self.due(c, label)
+
     def adapt(self, src: str, dst: str, label: Label) -> Label:
         return adapt(label, self.path[src], self.path[dst])
 
